@@ -53,7 +53,7 @@ Definition k_zone_round_col (c : column) (o : cmpop) (q : value) : bool :=
   | OpLt | OpGt => existsb is_big_int (q :: col_values c) && existsb is_float (q :: col_values c)
   | _ => false
   end.
-(** K5: [Ne] pruning on a column that holds -- or whose min/max bounds still hold -- a non-null value
+(** K5 (repaired by 1879631; class of the pre-repair behaviour): [Ne] pruning on a column that holds -- or whose min/max bounds still hold -- a non-null value
     of another type than the query value, or a NaN *)
 Definition odd_for_ne (q x : value) : bool :=
   negb (is_null x) && (negb (vtag x =? vtag q) || match x with VFloat b => f64_is_nan b | _ => false end).
@@ -66,7 +66,10 @@ Definition k_zone_ne_col (c : column) (o : cmpop) (q : value) : bool :=
 Definition k_range_round_col (c : column) (lo hi : option value) (li hi_i : bool) : bool :=
   (match lo with Some l => negb li && k_zone_round_col c OpGt l | None => false end)
   || (match hi with Some h => negb hi_i && k_zone_round_col c OpLt h | None => false end).
-(** the two classes on a property storage (node or edge properties) *)
+(** the classes on a property storage (node or edge properties): K4 alone for the current code,
+    K4 and K5 for the behaviour before fix 1879631 *)
+Definition ps_round_class (p : pstore) (key : Z) (o : cmpop) (q : value) : bool :=
+  match zget p key with Some c => k_zone_round_col c o q | None => false end.
 Definition ps_zone_class (p : pstore) (key : Z) (o : cmpop) (q : value) : bool :=
   match zget p key with Some c => k_zone_round_col c o q || k_zone_ne_col c o q | None => false end.
 Definition ps_range_class (p : pstore) (key : Z) (lo hi : option value) (li hi_i : bool) : bool :=
